@@ -134,6 +134,22 @@ def protocol(ctx, name, op, rng, manufactured='', special=None):
             outs.append(util.snap(out))
         if len(outs) == 2 and outs[0] != outs[1]:
             ctx.violation(comp, cfg, 'prefill-dependence', name=name)
+        # history: the same input *object*, changed in place between two calls (iterates of a solver) - nothing remembered
+        # from the first call may leak into the second: against the call on a fresh object holding the same values
+        if not util.is_field(op.domain) and all(np.dtype(l.dtype).kind in 'fc' for _p, l in util.leaves(op.domain)):
+            ctx.ev('point-history')
+            xh = x.copy()
+            op(xh)
+            xh.lincomb(0.8, xh)
+            got_h = op(xh)
+            want_h = op(xh.copy())
+            if not equalish(got_h, want_h, op.range) if util.is_field(op.range) else not util.close(got_h, want_h, 1e-12, 1e-13):
+                ctx.violation(comp, cfg, 'value-at-an-input-object-changed-in-place-is-stale', name=name)
+            out_h = util.fill(op.range.element(), 'nan')
+            xh.lincomb(1.5, xh)
+            op(xh, out=out_h)
+            if not util.close(out_h, op(xh.copy()), 1e-10, 1e-12):
+                ctx.violation(comp, cfg, 'value-at-an-input-object-changed-in-place-is-stale', name=name, call='in-place')
         # F-ordered out for plain tensor spaces with ndim >= 2
         ran = op.range
         if isinstance(ran, odl.space.npy_tensors.NumpyTensorSpace) and ran.ndim >= 2:
